@@ -120,7 +120,7 @@ impl AsmBuilder for FuelAsmBuilder<'_, '_> {
                 self.globals_section.insert(name, size_in_bytes);
                 let global = self.globals_section.get_by_name(name).unwrap();
 
-                let (decode_fn_label, _) = self.func_label_map.get(&decode_fn.get()).unwrap();
+                let (decode_fn_label, _) = *self.func_label_map.get(&decode_fn.get()).unwrap();
                 let dataid = self.data_section.insert_data_value(Entry::new_byte_array(
                     encoded_bytes.clone(),
                     EntryName::Configurable(name.clone()),
@@ -136,30 +136,26 @@ impl AsmBuilder for FuelAsmBuilder<'_, '_> {
                     owning_span: None,
                 });
 
-                self.before_entries.push(Op {
-                    opcode: Either::Left(VirtualOp::ADDI(
-                        VirtualRegister::Constant(ConstantRegister::FuncArg1),
-                        VirtualRegister::Constant(ConstantRegister::Zero),
-                        VirtualImmediate12::new(encoded_bytes.len() as u64),
-                    )),
-                    comment: format!("get length of configurable {name} default value"),
-                    owning_span: None,
-                });
+                // The length and the offset do not necessarily fit in 12 bits.
+                let global_offset_in_bytes = global.offset_in_bytes;
+                self.immediate_to_reg_before_entries(
+                    encoded_bytes.len() as u64,
+                    VirtualRegister::Constant(ConstantRegister::FuncArg1),
+                    &VirtualRegister::Constant(ConstantRegister::Zero),
+                    format!("get length of configurable {name} default value"),
+                );
 
-                self.before_entries.push(Op {
-                    opcode: Either::Left(VirtualOp::ADDI(
-                        VirtualRegister::Constant(ConstantRegister::FuncArg2),
-                        VirtualRegister::Constant(ConstantRegister::StackStartPointer),
-                        VirtualImmediate12::new(global.offset_in_bytes),
-                    )),
-                    comment: format!("get pointer to configurable {name} stack address"),
-                    owning_span: None,
-                });
+                self.immediate_to_reg_before_entries(
+                    global_offset_in_bytes,
+                    VirtualRegister::Constant(ConstantRegister::FuncArg2),
+                    &VirtualRegister::Constant(ConstantRegister::StackStartPointer),
+                    format!("get pointer to configurable {name} stack address"),
+                );
 
                 // call decode
                 self.before_entries.push(Op {
                     opcode: Either::Right(crate::asm_lang::ControlFlowOp::Jump {
-                        to: *decode_fn_label,
+                        to: decode_fn_label,
                         type_: JumpType::Call,
                     }),
                     comment: format!("decode configurable {name}"),
@@ -1446,15 +1442,18 @@ impl<'ir, 'eng> FuelAsmBuilder<'ir, 'eng> {
 
         // if configurable is at the global_section, it is v1
         if let Some(g) = self.globals_section.get_by_name(name) {
-            self.cur_bytecode.push(Op {
-                opcode: either::Either::Left(VirtualOp::ADDI(
-                    addr_reg.clone(),
-                    VirtualRegister::Constant(ConstantRegister::StackStartPointer),
-                    VirtualImmediate12::new(g.offset_in_bytes),
+            // The offset does not necessarily fit in 12 bits.
+            let offset_in_bytes = g.offset_in_bytes;
+            let span = self.md_mgr.val_to_span(self.context, *addr_val);
+            self.immediate_to_reg(
+                offset_in_bytes,
+                addr_reg.clone(),
+                Some(&VirtualRegister::Constant(
+                    ConstantRegister::StackStartPointer,
                 )),
-                comment: format!("get address of configurable {name}"),
-                owning_span: self.md_mgr.val_to_span(self.context, *addr_val),
-            });
+                format!("get address of configurable {name}"),
+                span,
+            );
             self.reg_map.insert(*addr_val, addr_reg);
         } else {
             // Otherwise it is a configurable with encoding v0 and must be at configurable_v0_data_id
@@ -2680,6 +2679,20 @@ impl<'ir, 'eng> FuelAsmBuilder<'ir, 'eng> {
                 });
             }
         }
+    }
+
+    /// Like [Self::immediate_to_reg] with a base register, but emits into `before_entries`.
+    fn immediate_to_reg_before_entries(
+        &mut self,
+        imm: u64,
+        reg: VirtualRegister,
+        base: &VirtualRegister,
+        comment: String,
+    ) {
+        let cur_bytecode = std::mem::take(&mut self.cur_bytecode);
+        self.immediate_to_reg(imm, reg, Some(base), comment, None);
+        let ops = std::mem::replace(&mut self.cur_bytecode, cur_bytecode);
+        self.before_entries.extend(ops);
     }
 
     pub(super) fn func_to_labels(&mut self, func: &Function) -> (Label, Label) {
